@@ -74,6 +74,12 @@ Aspects(e) ==
   ELSE IF e.ev = "canonicalize" THEN (IF Prop = "C20" THEN {"kind", "val"} ELSE {})
   ELSE {}
 
+(* a byte-level decode of bytes that are NOT exactly one CBOR item (cut short, or followed by more bytes) is judged by C13 *)
+(* alone: the other properties speak about items                                                                        *)
+AspectsAt(st, e) ==
+  IF e.ev = "decode" /\ e.api # "bstr" /\ Prop \notin {"", "C01", "C13"} /\ st.wire # <<>> /\ ~ReadToValue(st.wire[1]).ok /\ ~ReadToValue(st.wire[1]).gap
+  THEN {} ELSE Aspects(e)
+
 (* the retained protected-header byte strings of a value, in a fixed traversal order *)
 RECURSIVE OrigsHdr(_)
 RECURSIVE OrigsSigs(_)
@@ -116,7 +122,7 @@ SameModOps(ty, a, b) ==
 (* decoding (C08/C09/C10/C18): the crate accepts iff the item is well-formed, and the value is ValueOf *)
 PropDecode(st, e, o) ==
   LET r == ReadToValue(st.wire[1]) IN
-  IF ~r.ok THEN o.kind = "err"
+  IF ~r.ok THEN TRUE                 \* bytes that are not exactly one item: C13's business (PropOneItem), not this property's
   ELSE IF e.api = "slice" THEN
     (IF e.ty \in MsgTypes /\ HasEmptyNested(e.ty, r.v) THEN TRUE
      ELSE LET wf == WF(e.ty, e.reg, r.v) IN
@@ -209,7 +215,7 @@ Consume ==
        /\ (gap \/ Prop # "C06" \/ PropRel(n, o)
            \/ PrintT(<<"PROPFAIL", l, "created-and-verified-bytes-relation", ToJson([event |-> e, design |-> Obs(n)])>>))
        /\ \/ gap                                               \* unjudged
-          \/ MatchObs(e, Obs(n), o, Aspects(e))
+          \/ MatchObs(e, Obs(n), o, AspectsAt(s, e))
           \/ PrintT(<<"MISMATCH", l, e.ev, ToJson([expect |-> Obs(n), event |-> e])>>)
        /\ (gap \/ n.out.kind # "err" \/ o.kind # "err" \/ n.out.err = o.err
            \/ PrintT(<<"DEVIATION", l, n.out.err, o.err>>))
